@@ -28,11 +28,13 @@ func getValidityFlag() *abool.AtomicBool {
 // signalChanges marks the configs validtityFlag as dirty and eventually
 // triggers a config change event.
 func signalChanges() {
+	verifPoint("config.set.beforeSignal")
 	// reset validity flag
 	validityFlagLock.Lock()
 	validityFlag.SetTo(false)
 	validityFlag = abool.NewBool(true)
 	validityFlagLock.Unlock()
+	verifPoint("config.signal.swapped")
 
 	module.TriggerEvent(ChangeEvent, nil)
 }
